@@ -12,18 +12,26 @@ Require Import TT.Model.Str TT.Model.TypeParse TT.Spec.TsType TT.Model.Render TT
 Require Import TT.Spec.C05Spec TT.Spec.C05Known.
 Require Import TT.Model.C05Parse TT.Proofs.C05ParseProofs.
 Require Import TT.Proofs.TypeParseProofs TT.Proofs.RenderProofs TT.Proofs.C05Proofs TT.Proofs.C05Sweep TT.Proofs.C05Witness TT.Proofs.C05Examples.
+Require Import TT.Proofs.C05PrefixProofs TT.Proofs.C05OracleProofs TT.Model.C05TypeStr TT.Proofs.C05TypeStrProofs.
 Import ListNotations.
 Local Open Scope string_scope.
 
-(* The statement for every site and both modes. It is NOT asserted: the faithful model refutes it
-   without the class premise (lemmas *_refuted below), and with the premise it is proved for the
-   unqualified TypeScript sites (C05_sound_plain) and, for the remaining sites, only on bounded sweeps
-   of the model (C05_sweep_sound_depth1_partial here; depth 2 in Proofs/C05Sweep2.v). *)
+(* The statement for every site and both modes. It is NOT asserted as a whole: without the class
+   premise the faithful model refutes it (lemmas *_refuted below); with the premise it is PROVED for
+   every site whose text is a TypeScript type - parameter, field, channel in plain mode and channel,
+   return, event in both modes, 8 of the 10 site x mode pairs (C05_sound_ts_sites) - and for the two
+   remaining pairs (Zod-mode parameter and field SCHEMAS, read back through Spec/C05Spec.zshape) only
+   on bounded sweeps of the model (C05_sweep_sound_depth1_partial; depth 2 in Proofs/C05Sweep2.v).
+   The remainder is exactly C05_sound_zod_schema_statement. *)
 Definition C05_sound_full_statement : Prop :=
   forall (s : site) (md : mode) (t : rty),
     dom_b t = true -> kf_C05 s md [] t = false ->
     exists text, emit_type s md [] t = Some text /\
                  observe (site_is_type s md) text = Some (expected s [] t).
+Definition C05_sound_zod_schema_statement : Prop :=
+  forall (s : site) (t : rty), (s = SParam \/ s = SField) ->
+    dom_b t = true -> kf_C05 s MZod [] t = false ->
+    exists text, emit_type s MZod [] t = Some text /\ zod_infer text = Some (rshape [] t).
 
 (* String -> TypeStructure: parse_type_structure returns the intended structure of EVERY well-formed
    type (names without square brackets), with the fuel the entry point uses. No class premise: the two
@@ -51,6 +59,45 @@ Proof.
   rewrite msubst_nil in Hk. cbn [andb] in Hk.
   apply orb_false_elim in Hk as [H3 _]. exact H3.
 Qed.
+
+(* Return types and event payloads (the add_types_prefix sites), both modes, every type of the
+   documented language at any nesting depth: outside the two remaining text classes (a union directly
+   under [], C05-1; a declared name inside Record<..> / a tuple, C05-5) the printed text, read by the
+   TypeScript type parser, is the README shape with every declared name qualified by the namespace. *)
+Theorem C05_sound_prefix : forall t : rty,
+  dom_b t = true -> kf_union_under_seq (sem t) = false -> pfx_class (sem t) = 0 ->
+  forall s md, site_qualified s = true ->
+  exists text, emit_type s md [] t = Some text /\
+               observe (site_is_type s md) text = Some (expected s [] t).
+Proof. intros t Hd H3 Hp. apply sound_prefix; try constructor; auto. rewrite msubst_nil. exact Hp. Qed.
+
+(* Every site whose text is a TypeScript type (8 of the 10 site x mode pairs), with the class predicate
+   of the run-time matcher as only premise: the full statement restricted to those sites. *)
+Theorem C05_sound_ts_sites : forall (s : site) (md : mode) (t : rty),
+  site_is_type s md = true -> dom_b t = true -> kf_C05 s md [] t = false ->
+  exists text, emit_type s md [] t = Some text /\
+               observe (site_is_type s md) text = Some (expected s [] t).
+Proof. intros s md t Hty Hd Hk. apply sound_ts_sites; try constructor; auto. Qed.
+
+(* add_types_prefix itself: on the text of every structure outside the pinned class it prints the
+   qualified rendering (every declared name as types.N, nothing else touched) *)
+Theorem C05_prefix_is_qualified_render : forall ts, ts_ok ts -> names_ok ts -> pfx_class ts = 0 ->
+  add_types_prefix (render ts) = renderq ts.
+Proof. intros ts Hok Hn Hp. unfold add_types_prefix. apply atp_render; auto.
+  pose proof (sdepth_le_len ts). auto with arith. Qed.
+
+(* The run-time oracle is exactly the Prop-level statement *)
+Theorem C05_oracle_exact : forall s md m t text,
+  c05_ok s md m t text = true <-> observe (site_is_type s md) text = Some (expected s m t).
+Proof. exact c05_oracle_exact. Qed.
+
+(* The three type_to_string variants (command parameters / returns, struct fields, channel messages;
+   Model/C05TypeStr.v models them on the larger syn syntax, where they differ on arrays, slices and
+   non-type generic arguments) print the same text, tts, on every type of the documented language -
+   which is why one printer suffices in the theorems above. *)
+Theorem C05_printers_agree : forall t : rty,
+  pr_cmd (emb t) = tts t /\ pr_struct (emb t) = tts t /\ pr_chan (emb t) = tts t.
+Proof. exact printers_agree. Qed.
 
 (* Compositional at any depth: what a reader sees for K<t> is K applied to what he sees for t *)
 Theorem C05_compositional_vec : forall s md t, plain_site s md = true ->
@@ -138,6 +185,13 @@ Theorem C05_prefix_composite_repaired : repaired SReturn MNone w_pfx_composite "
 Proof. exact prefix_composite_repaired. Qed.
 
 (* ---- the premises are satisfiable on non-trivial inputs ---- *)
+(* Option<Vec<Vec<User>>> at the return site: qualified under two [] and | null *)
+Definition ex_ret : rty := RPath (L "Option") [RPath (L "Vec") [RPath (L "Vec") [RPath (L "User") []]]].
+Example C05_sound_prefix_premises :
+  dom_b ex_ret = true /\ kf_union_under_seq (sem ex_ret) = false /\ pfx_class (sem ex_ret) = 0 /\
+  kf_C05 SReturn MZod [] ex_ret = false /\
+  emit_type SReturn MZod [] ex_ret = Some (L "types.User[][] | null").
+Proof. vm_compute. repeat split; reflexivity. Qed.
 (* HashMap<String, Vec<(Option<User>, &str)>> : depth 4, six constructors, outside every class *)
 Definition ex_deep : rty :=
   RPath (L "HashMap") [RPath (L "String") [];
@@ -168,6 +222,11 @@ Proof. exact sweep_premises_example. Qed.
 Print Assumptions C05_parse_faithful.
 Print Assumptions C05_sound_plain.
 Print Assumptions C05_plain_premises.
+Print Assumptions C05_sound_prefix.
+Print Assumptions C05_sound_ts_sites.
+Print Assumptions C05_prefix_is_qualified_render.
+Print Assumptions C05_oracle_exact.
+Print Assumptions C05_printers_agree.
 Print Assumptions C05_compositional_vec.
 Print Assumptions C05_compositional_hashset.
 Print Assumptions C05_compositional_btreeset.
